@@ -580,14 +580,21 @@ func VerifMatcherPending(lines []string, reqs []struct {
 	for {
 		got := make(chan *Merger, 1)
 		go func() {
-			eventBox.Wait(func(events *util.Events) {
-				for evt, val := range *events {
-					if evt == EvtSearchFin {
-						got <- val.(*Merger)
+			// other events (search progress) may arrive first: keep waiting for the result
+			for fin := false; !fin; {
+				eventBox.Wait(func(events *util.Events) {
+					for evt, val := range *events {
+						if evt == EvtSearchFin {
+							got <- val.(*Merger)
+							fin = true
+						}
+						if evt == EvtQuit {
+							fin = true
+						}
 					}
-				}
-				events.Clear()
-			})
+					events.Clear()
+				})
+			}
 		}()
 		select {
 		case mg := <-got:
@@ -735,14 +742,21 @@ func VerifConcurrent(lines []string, queries []string, sort bool, tac bool, yiel
 		m.Reset(snapshot, []rune(q), true, final, sort, revision{})
 		got := make(chan *Merger, 1)
 		go func() {
-			eventBox.Wait(func(events *util.Events) {
-				for evt, val := range *events {
-					if evt == EvtSearchFin {
-						got <- val.(*Merger)
+			// other events (search progress) may arrive first: keep waiting for the result
+			for fin := false; !fin; {
+				eventBox.Wait(func(events *util.Events) {
+					for evt, val := range *events {
+						if evt == EvtSearchFin {
+							got <- val.(*Merger)
+							fin = true
+						}
+						if evt == EvtQuit {
+							fin = true
+						}
 					}
-				}
-				events.Clear()
-			})
+					events.Clear()
+				})
+			}
 		}()
 		select {
 		case mg := <-got:
@@ -830,14 +844,21 @@ func VerifMatcherHistory(sets [][]string, reqs []VerifHistReq, tac bool) [][]int
 		m.Reset(snapshot, []rune(r.Query), true, r.Final, r.Sort, rev)
 		got := make(chan *Merger, 1)
 		go func() {
-			eventBox.Wait(func(events *util.Events) {
-				for evt, val := range *events {
-					if evt == EvtSearchFin {
-						got <- val.(*Merger)
+			// other events (search progress) may arrive first: keep waiting for the result
+			for fin := false; !fin; {
+				eventBox.Wait(func(events *util.Events) {
+					for evt, val := range *events {
+						if evt == EvtSearchFin {
+							got <- val.(*Merger)
+							fin = true
+						}
+						if evt == EvtQuit {
+							fin = true
+						}
 					}
-				}
-				events.Clear()
-			})
+					events.Clear()
+				})
+			}
 		}()
 		select {
 		case mg := <-got:
@@ -914,14 +935,21 @@ func VerifMatcherHistoryOpts(sets [][]string, reqs []VerifHistReq, tac bool, fuz
 		m.Reset(snapshot, []rune(r.Query), true, r.Final, r.Sort, rev)
 		got := make(chan *Merger, 1)
 		go func() {
-			eventBox.Wait(func(events *util.Events) {
-				for evt, val := range *events {
-					if evt == EvtSearchFin {
-						got <- val.(*Merger)
+			// other events (search progress) may arrive first: keep waiting for the result
+			for fin := false; !fin; {
+				eventBox.Wait(func(events *util.Events) {
+					for evt, val := range *events {
+						if evt == EvtSearchFin {
+							got <- val.(*Merger)
+							fin = true
+						}
+						if evt == EvtQuit {
+							fin = true
+						}
 					}
-				}
-				events.Clear()
-			})
+					events.Clear()
+				})
+			}
 		}()
 		select {
 		case mg := <-got:
